@@ -396,6 +396,23 @@ func (e *ExprTerm) ToExpr(expr *biscuit.Expression, parameters ParametersMap) {
 
 }
 
+// ErrInvalidExpressionTerm is returned when a term inside an expression cannot
+// be converted: unbound parameter, variable inside a set, malformed date or
+// byte literal.
+var ErrInvalidExpressionTerm = errors.New("parser: invalid term in expression")
+
+// checkExprTerms reports the terms that ExprTerm.ToExpr failed to convert.
+// ToExpr has no error result and emits such a term as a nil Value, which
+// panics as soon as the expression is added to a builder or an authorizer.
+func checkExprTerms(expr biscuit.Expression) error {
+	for _, op := range expr {
+		if v, ok := op.(biscuit.Value); ok && v.Term == nil {
+			return ErrInvalidExpressionTerm
+		}
+	}
+	return nil
+}
+
 func (e *OpExpr1) ToExpr(expr *biscuit.Expression, parameters ParametersMap) {
 	e.Expr1.ToExpr(expr, parameters)
 	e.Operator.ToExpr(expr)
@@ -586,6 +603,9 @@ func (r *Rule) ToBiscuit(parameters ParametersMap) (*biscuit.Rule, error) {
 			{
 				var expr biscuit.Expression
 				(*p.Expression).ToExpr(&expr, parameters)
+				if err := checkExprTerms(expr); err != nil {
+					return nil, err
+				}
 
 				expressions = append(expressions, expr)
 			}
@@ -638,6 +658,9 @@ func (r *CheckQuery) ToBiscuit(parameters ParametersMap) (*biscuit.Rule, error) 
 			{
 				var expr biscuit.Expression
 				(*p.Expression).ToExpr(&expr, parameters)
+				if err := checkExprTerms(expr); err != nil {
+					return nil, err
+				}
 
 				expressions = append(expressions, expr)
 			}
